@@ -175,38 +175,15 @@ func isScannerFn(c *Ctx, f *ssa.Function) bool {
 	return false
 }
 
-func classifyRecEdge(c *Ctx, eng *effEngine, f, g *ssa.Function, site ssa.CallInstruction) (string, string) {
+// visitedGuarded: the call is made only for keys not yet in a visited set (a map parameter handed on to
+// the callee) and the key is inserted before the call.
+func visitedGuarded(f, g *ssa.Function, site ssa.CallInstruction) bool {
 	cc := site.Common()
-	// actual arguments in callee-parameter order
 	var actuals []ssa.Value
 	if cc.IsInvoke() {
 		actuals = append(actuals, cc.Value)
 	}
 	actuals = append(actuals, cc.Args...)
-	// scanner recursion: consumes input before descending; bounded when a nesting guard dominates the call
-	if isScannerFn(c, f) && isScannerFn(c, g) {
-		if why, ok := nestGuarded(c, f, site); ok {
-			return "BOUNDED", why
-		}
-		return "INPUT", "scanner recursion: each level first consumes the construct's opening token"
-	}
-	// DEC: an integer parameter of the callee receives p - c
-	for i, a := range actuals {
-		if i >= len(g.Params) {
-			break
-		}
-		bt, ok := g.Params[i].Type().Underlying().(*types.Basic)
-		if !ok || bt.Info()&types.IsInteger == 0 {
-			continue
-		}
-		if bo, ok := a.(*ssa.BinOp); ok && bo.Op == token.SUB {
-			if _, isP := bo.X.(*ssa.Parameter); isP {
-				if k, isC := bo.Y.(*ssa.Const); isC && k.Int64() >= 1 {
-					return "DEC", fmt.Sprintf("parameter %s receives %s - %d", g.Params[i].Name(), bo.X.Name(), k.Int64())
-				}
-			}
-		}
-	}
 	// VISITED: call guarded by a visited set that is extended before the call
 	for i, a := range actuals {
 		if i >= len(g.Params) {
@@ -256,8 +233,76 @@ func classifyRecEdge(c *Ctx, eng *effEngine, f, g *ssa.Function, site ssa.CallIn
 			}
 		}
 		if marked && tested {
-			return "VISITED", "the call is made only for keys not yet in the visited set, which is extended before the call"
+			return true
 		}
+	}
+	return false
+}
+
+// followsReference: some pointer-like argument of the call is reached from a caller parameter through a
+// reference selector (fragment spread -> definition, field -> type ...). Returns the selector.
+func followsReference(c *Ctx, eng *effEngine, f, g *ssa.Function, site ssa.CallInstruction) string {
+	cc := site.Common()
+	var actuals []ssa.Value
+	if cc.IsInvoke() {
+		actuals = append(actuals, cc.Value)
+	}
+	actuals = append(actuals, cc.Args...)
+	for i, a := range actuals {
+		if i >= len(g.Params) {
+			break
+		}
+		switch g.Params[i].Type().Underlying().(type) {
+		case *types.Pointer, *types.Interface, *types.Slice, *types.Map:
+		default:
+			continue
+		}
+		for _, p := range recProv(c, eng, f, a) {
+			for _, sel := range p.selList() {
+				if _, isRef := referenceSelectors[sel]; isRef {
+					return sel
+				}
+			}
+		}
+	}
+	return ""
+}
+
+func classifyRecEdge(c *Ctx, eng *effEngine, f, g *ssa.Function, site ssa.CallInstruction) (string, string) {
+	cc := site.Common()
+	// actual arguments in callee-parameter order
+	var actuals []ssa.Value
+	if cc.IsInvoke() {
+		actuals = append(actuals, cc.Value)
+	}
+	actuals = append(actuals, cc.Args...)
+	// scanner recursion: consumes input before descending; bounded when a nesting guard dominates the call
+	if isScannerFn(c, f) && isScannerFn(c, g) {
+		if why, ok := nestGuarded(c, f, site); ok {
+			return "BOUNDED", why
+		}
+		return "INPUT", "scanner recursion: each level first consumes the construct's opening token"
+	}
+	// DEC: an integer parameter of the callee receives p - c
+	for i, a := range actuals {
+		if i >= len(g.Params) {
+			break
+		}
+		bt, ok := g.Params[i].Type().Underlying().(*types.Basic)
+		if !ok || bt.Info()&types.IsInteger == 0 {
+			continue
+		}
+		if bo, ok := a.(*ssa.BinOp); ok && bo.Op == token.SUB {
+			if _, isP := bo.X.(*ssa.Parameter); isP {
+				if k, isC := bo.Y.(*ssa.Const); isC && k.Int64() >= 1 {
+					return "DEC", fmt.Sprintf("parameter %s receives %s - %d", g.Params[i].Name(), bo.X.Name(), k.Int64())
+				}
+			}
+		}
+	}
+	// VISITED: call guarded by a visited set that is extended before the call
+	if visitedGuarded(f, g, site) {
+		return "VISITED", "the call is made only for keys not yet in the visited set, which is extended before the call"
 	}
 	// DESC / REF by provenance of pointer-like arguments
 	best := "NEUT"
